@@ -1,7 +1,7 @@
 (* C07 — Finalizer ordering safety in controller-driven lifecycles. Statements only.
    Machine: GenCtl.q_step (qtransform.QController.Reconcile as a sequence of runtime-API calls, each executed
    atomically by Access.a_apply; any store operation of any other party between any two calls). *)
-From Verif Require Import Store Helpers DepDB Access GenCtl GenCtlProofs.
+From Verif Require Import Store Helpers DepDB Access GenCtl GenCtlProofs Cleanup CleanupProofs.
 Open Scope N_scope.
 
 (* for every schedule of worker calls, transform faults, restarts and environment operations that respect
@@ -56,3 +56,20 @@ Theorem C07_ignore_teardown_refuted : forall m, m = QUntil \/ m = QWhile 5 ->
     owned_out 1 3 4 6 st /\ ~ in_fin 1 2 4 6 st.
 Proof. exact q_ignore_teardown_refuted_ex. Qed.
 Print Assumptions C07_ignore_teardown_refuted.
+
+(* third clause — cleanup.Controller with HasNoOutputs handlers (also combined): at the instant the controller issues
+   RemoveFinalizer on a torn-down input every removal handler has succeeded, and — provided nobody creates a new
+   dependent of the input once a handler found none — no dependent output of any handler kind exists; the release
+   itself touches only the input *)
+Theorem C07_cleanup_release_only_without_dependents : forall ns tin cname lkey touts, ~ In tin touts -> forall x l,
+  env_respects_c ns tin cname lkey touts x (mkCS [] C0) l ->
+  let s := c_run ns tin cname lkey touts x (mkCS [] C0) l in
+  forall inp, cs_pc s = CRemFin inp -> forall t, In t touts -> dependents ns lkey x t (cs_store s) = [].
+Proof. exact c_release_only_without_dependents. Qed.
+Print Assumptions C07_cleanup_release_only_without_dependents.
+
+Theorem C07_cleanup_release_touches_only_input : forall ns tin cname touts, ~ In tin touts -> forall now x st st' r t,
+  In t touts -> a_apply now (cctrl ns tin cname touts) (ARemFin (ns, tin, x) [cname]) st = (st', r) ->
+  st_list ns t st' = st_list ns t st.
+Proof. exact c_release_touches_only_input. Qed.
+Print Assumptions C07_cleanup_release_touches_only_input.
